@@ -1477,6 +1477,13 @@ fn gen_c11(seed: u64, idx: usize, _tier: Tier) -> (RunScenario, C11Extra) {
     script.sched_seed = rng.next_u64();
     script.workers = Some(*rng.pick(&[1u32, 4, 16]));
     script.rand_seed = Some(rng.next_u64() % 1_000_000);
+    if dangling.is_empty() && rng.chance(1, 7) {
+        // the executable of the k-th spawn is open for writing when monorail execs it (ETXTBSY) and is released a
+        // little later: the run may fail loudly, but a process that does start must get the documented argv once
+        let k = rng.range(1, 4);
+        let ms = *rng.pick(&[20u32, 120, 400]);
+        script.env_actions.push(crate::rundrv::EnvAction { point: "run.spawn".into(), nth: k, act: crate::rundrv::EnvAct::BusyExec { ms } });
+    }
     (RunScenario { spec, mode, script, hang_ms: default_hang_ms() }, C11Extra { argmap_files, dangling })
 }
 
@@ -1561,12 +1568,29 @@ impl Property for C11 {
             out.signature = format!("dangling|{:?}", ex.dangling);
             return out;
         }
+        let busy = sc.script.env_actions.iter().any(|a| matches!(a.act, crate::rundrv::EnvAct::BusyExec { .. }));
+        if busy && tr.env_actions_done > 0 {
+            out.fault("executable_busy_at_exec", 1);
+        }
         let doc = match tr.result_json() {
             Some(d) => d,
             None => {
                 let e = tr.stderr_str();
                 if e.contains("\"graph\"") {
                     return Outcome::skip("run_rejects_graph(C03 territory)");
+                }
+                if busy && tr.env_actions_done > 0 && (e.contains("Text file busy") || e.contains("os error 26")) {
+                    // a loud failure is tolerated under this fault; whatever did start must still be right
+                    out.probe("executable_busy_failed_loudly", 1);
+                    for h in &tr.helpers {
+                        let want = expected_argv(&sc, &ex, &h.command, &h.target);
+                        if h.argv != want {
+                            out.violate("argv", "different_args", format!("'{}' for '{}' received {} arguments, documented concatenation has {} (run aborted later on a busy executable)", h.command, h.target, h.argv.len(), want.len()));
+                        }
+                    }
+                    out.nontrivial = !tr.helpers.is_empty();
+                    out.signature = format!("busy-loud|{}|{}", tr.helpers.len(), sc.spec.targets.len());
+                    return out;
                 }
                 out.violate("argv", "run_failed", format!("run produced no result: exit {:?} {}", tr.code(), e.chars().take(300).collect::<String>()));
                 return out;
@@ -1641,7 +1665,7 @@ impl Property for C11 {
         out
     }
     fn rule(&self) -> String {
-        "1-8 targets x 1-3 commands; per target: base.json present/absent/empty object, 0-3 named argmaps of which some files do not exist, custom argmaps.path / commands.path, definitions with explicit path (with a decoy of the same stem in the command directory), with empty path, or none; argument strings with spaces, quotes, $, *, newline, empty string, non-ASCII, 4 KiB; --no-base-argmaps; --args in the single command + single target form; several members spawned concurrently from one shared argmap table. Oracle: argv / cwd / executed file as received by the child. The deciding dimension is mostly the configuration of files on disk, observed across the process boundary. Non-trivial = >= 2 different expected argument lists in the run and >= 1 requested argmap file missing; distinct = hash of the expected argument lists".into()
+        "1-8 targets x 1-3 commands; per target: base.json present/absent/empty object, 0-3 named argmaps of which some files do not exist, custom argmaps.path / commands.path, definitions with explicit path (with a decoy of the same stem in the command directory), with empty path, or none; argument strings with spaces, quotes, $, *, newline, empty string, non-ASCII, 4 KiB; --no-base-argmaps; --args in the single command + single target form; several members spawned concurrently from one shared argmap table; in one scenario of seven the executable of the k-th spawn is open for writing by another process when monorail execs it (ETXTBSY) and is released 20/120/400 ms later: the run may fail loudly, a process that does start must receive the documented argv exactly once. Oracle: argv / cwd / executed file as received by the child. The deciding dimension is mostly the configuration of files on disk, observed across the process boundary. Non-trivial = >= 2 different expected argument lists in the run and >= 1 requested argmap file missing; distinct = hash of the expected argument lists".into()
     }
     fn components(&self) -> Value {
         components()
